@@ -92,6 +92,8 @@ def run(ctx):
         directed.append([["backup", v], ["load"], ["forget", v], ["prune", False], ["stale", w], ["backup", w], ["prune", False]])
         directed.append([["backup", v], ["load"], ["forget", v], ["prune", False], ["stale", w], ["backup", w], ["backup", v],
                          ["tick"], ["prune", False]])
+        # the overlapping backup adds nothing new: the next prune has nothing to do but to recover the marked packs
+        directed.append([["backup", v], ["load"], ["forget", v], ["prune", False], ["stale", v], ["prune", False]])
     if q:
         hs = rng.sample(h4, 50) + rng.sample(h5, 50) + h7r[:30]
     else:
